@@ -430,6 +430,18 @@ class Interp:
         if op == 'count_ones':
             return z3.Sum([z3.ZeroExt(31, z3.Extract(i, i, x)) for i in range(w)])
         if op == 'is_power_of_two': return z3.And(x != 0, (x & (x - 1)) == 0)
+        if op in ('ilog2', 'checked_ilog2') and not signed:
+            r = z3.BitVecVal(0, 32)
+            for i in range(w): r = z3.If(z3.Extract(i, i, x) == 1, z3.BitVecVal(i, 32), r)
+            if op == 'checked_ilog2': return OptionVal(x != 0, r)
+            bad = z3.simplify(z3.And(self.cur_pc, x == 0))
+            if not z3.is_false(bad): self.results.append((bad, 'panic', 'ilog2 of zero', None))
+            self.cur_pc = z3.simplify(z3.And(self.cur_pc, x != 0))
+            return r
+        if op == 'next_power_of_two' and not signed:
+            r = z3.BitVecVal(1, w)
+            for i in range(w - 1): r = z3.If(z3.UGT(x, z3.BitVecVal(1 << i, w)), z3.BitVecVal(1 << (i + 1), w), r)
+            return r
         if op == 'abs_diff' and not signed: return z3.If(z3.ULT(x, y), y - x, x - y)
         if op in ('checked_add', 'checked_sub', 'checked_mul') and not signed:
             ok = {'checked_add': z3.BVAddNoOverflow(x, y, False), 'checked_sub': z3.UGE(x, y), 'checked_mul': z3.BVMulNoOverflow(x, y, False)}[op]
